@@ -38,8 +38,9 @@ impl Pool {
         Pool { base: base as *mut u8, next: 0, offset_counter: 0, protect, in_use: [false; SLOTS] }
     }
 
-    /// hands out the next slot (read/write, filled with 0xA5) and an in-slot offset (multiple of 16)
-    fn take(&mut self) -> (*mut u8, usize) {
+    /// hands out the next slot (read/write, used region filled with 0xA5) and an in-slot offset
+    /// (multiple of 16)
+    fn take(&mut self, total: usize) -> (*mut u8, usize) {
         let mut tries = 0;
         while self.in_use[self.next] {
             self.next = (self.next + 1) % SLOTS;
@@ -49,16 +50,22 @@ impl Pool {
         self.in_use[self.next] = true;
         let slot = unsafe { self.base.add(self.next * SLOT_SIZE) };
         self.next = (self.next + 1) % SLOTS;
-        unsafe {
-            libc::mprotect(slot as *mut _, SLOT_SIZE, libc::PROT_READ | libc::PROT_WRITE);
-            core::ptr::write_bytes(slot, 0xA5, SLOT_SIZE);
-        }
         self.offset_counter += 1;
         let off = (self.offset_counter * 7 * 16) % MAX_OFFSET;
+        unsafe {
+            if self.protect {
+                libc::mprotect(slot as *mut _, SLOT_SIZE, libc::PROT_READ | libc::PROT_WRITE);
+            }
+            core::ptr::write_bytes(slot.add(off), 0xA5, total);
+        }
         (slot, off)
     }
 
     /// after an object was leaked on purpose (panic inside the code under test): nothing is alive
+    pub fn set_protect(&mut self, on: bool) {
+        self.protect = on;
+    }
+
     pub fn reclaim_all(&mut self) {
         self.in_use = [false; SLOTS];
     }
@@ -67,8 +74,8 @@ impl Pool {
         let idx = (slot as usize - self.base as usize) / SLOT_SIZE;
         self.in_use[idx] = false;
         unsafe {
-            core::ptr::write_bytes(slot, 0xA5, SLOT_SIZE);
             if self.protect {
+                core::ptr::write_bytes(slot, 0xA5, MAX_OFFSET + 1024);
                 libc::mprotect(slot as *mut _, SLOT_SIZE, libc::PROT_NONE);
             }
         }
@@ -76,7 +83,7 @@ impl Pool {
 }
 
 thread_local! {
-    pub static POOL: std::cell::RefCell<Pool> = std::cell::RefCell::new(Pool::new(true));
+    pub static POOL: std::cell::RefCell<Pool> = std::cell::RefCell::new(Pool::new(false));
 }
 
 /// An object of type T (header) followed by `payload` bytes, inside a pool slot.
@@ -91,7 +98,7 @@ impl<T> InBlock<T> {
     fn place(total: usize) -> (*mut u8, *mut T) {
         assert!(total + MAX_OFFSET <= SLOT_SIZE, "object too large for a slot: {total}");
         assert!(core::mem::align_of::<T>() <= 16);
-        let (slot, off) = POOL.with(|p| p.borrow_mut().take());
+        let (slot, off) = POOL.with(|p| p.borrow_mut().take(total));
         (slot, unsafe { slot.add(off) } as *mut T)
     }
 
